@@ -376,6 +376,29 @@ def duplicates(P, R):
     pr = [s for s in gc.stores() if s.ev['k'] == 'store' and is_field(s.ev['lhs'], 'present') and const_of(s.ev.get('rhs')) == 1]
     R.ob('C16.MPT.1', bool(pr) and all(gc.path_avoiding(None, lambda t: t in pr, target=r.bid, from_entry=True) is None or any(t in pr for t in gc.block_sites(r.bid)[:r.idx]) for r in rets), pr[0] if pr else gc,
          'every node the parser touches is marked present', key='marks-present')
+    # ... and a repeated object keeps the members of its earlier occurrence: what the entry parser does to the member
+    # set of an object it was handed (possibly an existing one) is to install the callbacks, nothing that empties it
+    pe = P.need_fn('conf_parse_entry')
+    objs = set()
+    for s in pe.sites():
+        ev = s.ev
+        val = ev.get('init') if ev['k'] == 'decl' else ev.get('rhs') if ev['k'] == 'store' else None
+        tgt = ev.get('var') if ev['k'] == 'decl' else (ev['lhs']['name'] if ev['k'] == 'store' and is_var(ev.get('lhs')) else None)
+        if tgt and isinstance(val, dict) and val.get('k') == 'callref' and val.get('callee') == gc.name and 'object' in ((ev.get('lhs') or {}).get('t', '') + ev.get('t', '')):
+            objs.add(tgt)
+    nobj = 0
+    for v in sorted(objs):
+        bad = []
+        for s in pe.sites():
+            ev = s.ev
+            if ev['k'] == 'store' and on_path(ev.get('lhs'), 'contents') and root_var(ev['lhs']) is not None and root_var(ev['lhs'])['name'] == v:
+                fld = ev['lhs'].get('field')
+                if fld not in ('compare', 'cleanup'):
+                    bad.append('%s (store to %s)' % (s.loc, sx(ev['lhs'])))
+            if ev['k'] == 'call' and ev.get('callee') in ('memset', 'memcpy', 'set_clear', 'bzero') and ev['args'] and any(x.get('k') == 'mem' and x.get('field') == 'contents' and root_var(x) is not None and root_var(x)['name'] == v for x in walk(ev['args'][0])):
+                bad.append('%s (%s)' % (s.loc, ev['callee']))
+        nobj += 1
+        R.ob('C16.MPT.1', not bad, pe, 'the member set of an object handed out by %s (%s) is not emptied or overwritten by the entry parser%s' % (gc.name, v, (': ' + ', '.join(bad)) if bad else ''), key='dup-members-kept')
     R.floor('C16.MPT.1', 2)
 
 
@@ -551,10 +574,93 @@ def keyword_tables(P, R, rule='C16.TAB.5'):
     R.ob(rule, True, P.need_fn('conf_parse_boolean'), 'scanned the fixed-width keyword tables of all units: %d rows' % n, key='scan', nontrivial=False)
 
 
+def newline_accounting(P, R, rule='C16.LOOK.3'):
+    """A newline ends an entry and advances the line count: whenever the whitespace / comment skipper has consumed a
+    byte it then finds to be a newline, it either counts the line or steps back so that the newline is seen again,
+    before it reads on or returns another character.  A `//` comment that swallows its newline glues the entry behind
+    it to the one before it."""
+    ws = P.need_fn('conf_parse_whitespace')
+
+    def is_read(e):
+        return isinstance(e, dict) and e.get('k') == 'un' and e.get('op') == '*' and any(x.get('k') == 'un' and x.get('op') == '++' and is_field(x.get('e'), 'curr') for x in walk(e))
+    chars = set()
+    for s in ws.sites():
+        ev = s.ev
+        val = ev.get('init') if ev['k'] == 'decl' else ev.get('rhs') if ev['k'] == 'store' else None
+        tgt = ev.get('var') if ev['k'] == 'decl' else (ev['lhs']['name'] if ev['k'] == 'store' and is_var(ev.get('lhs')) else None)
+        if tgt and is_read(val):
+            chars.add(tgt)
+    if not chars:
+        R.note('%s: the skipper does not read bytes into a local; not judged' % rule)
+        return
+    problems = []
+
+    def on_event(st, s):
+        ev = s.ev
+        val = ev.get('init') if ev['k'] == 'decl' else ev.get('rhs') if ev['k'] == 'store' else None
+        tgt = ev.get('var') if ev['k'] == 'decl' else (ev['lhs']['name'] if ev['k'] == 'store' and is_var(ev.get('lhs')) else None)
+        if ev['k'] == 'store' and is_field(ev.get('lhs'), 'line_num'):
+            return None if st is None else ('', False)
+        if ev['k'] == 'store' and is_field(ev.get('lhs'), 'curr') and ev.get('op') in ('--', '-='):
+            return ('', False)
+        if tgt and is_read(val):
+            if st[1]:
+                problems.append((s, 'reads on'))
+            return (tgt, False)
+        if ev['k'] == 'ret' and st[1] and not (is_var(ev.get('val'), st[0])):
+            problems.append((s, 'returns another character'))
+        return st
+
+    def on_edge(st, e):
+        r = rules.edge_rel(e)
+        if r and is_var(r[0]) and r[0]['name'] == st[0] and r[1] == '==' and const_of(r[2]) == 10:
+            return (st[0], True)
+        return st
+    ws.forward(('', False), on_event, on_edge)
+    seen = set()
+    for s, why in problems:
+        if s.key in seen:
+            continue
+        seen.add(s.key)
+        R.ob(rule, False, s, 'a consumed newline is counted or un-read before the skipper %s' % why, key='newline:%s' % why)
+    R.ob(rule, not problems, ws, 'every newline the skipper consumes is counted (line number) or left for the caller (%d byte reads followed)' % len(chars), key='newline-accounted')
+
+
+def keyword_chains(P, R, rule='C16.TAB.6'):
+    """A spelling means one thing: in a chain of comparisons of one text against string literals (the boolean words,
+    the unit names ...) no literal is tested twice - the second test is dead, so the word silently takes the meaning of
+    the branch that tests it first (contradiction rule: two branches both claim the same word)."""
+    unit = P.need_fn('conf_read').unit
+    n = 0
+    for f in P.unit_fns(unit):
+        tests = {}
+        for b in f.blocks:
+            c = f.term_cond(b)
+            if c is None:
+                continue
+            for x in walk(c):
+                if x.get('k') == 'callref' and x.get('callee') in ('strcmp', 'strcasecmp') and len(x.get('args', [])) == 2:
+                    lits = [a for a in x['args'] if a.get('k') == 'str']
+                    oth = [a for a in x['args'] if a.get('k') != 'str']
+                    if len(lits) == 1 and len(oth) == 1:
+                        key = (sx(oth[0]), x['callee'])
+                        tests.setdefault(key, []).append((lits[0]['v'] if x['callee'] == 'strcmp' else lits[0]['v'].lower(), b))
+        for (subj, fnname), lst in tests.items():
+            if len(lst) < 4:
+                continue
+            words = [w for w, _ in lst]
+            dup = sorted({w for w in words if words.count(w) > 1})
+            n += 1
+            R.ob(rule, not dup, f, 'in %s each of the %d words compared with %s is tested once%s' % (f.name, len(words), subj, (' (tested twice: %s)' % ', '.join(repr(d) for d in dup)) if dup else ''), key='keyword-once:%s' % f.name)
+    R.floor(rule, 1, 'keyword chains in the configuration unit')
+
+
 def run(P, R, tier):
     reader_contract(P, R)
     token_alphabet(P, R)
     keyword_tables(P, R)
+    keyword_chains(P, R)
+    newline_accounting(P, R)
     f, before, reads, unreads = lookahead(P, R)
     follow(P, R, f, before, reads)
     escapes(P, R)
